@@ -53,6 +53,12 @@ COMPONENTS = {"real": common.REAL_COMPONENTS, "stub": common.STUB_COMPONENTS}
 
 def gen(ch, tier):
     cfg = TIERS[tier]
+    if ch.coin(0.04):
+        # dense overlap: the candidate set is nearly the full product and crosses the 10000 / 15000 / 22500
+        # buffer-growth boundaries of the candidate enumeration
+        shape = ch.choice([(4, 4, 12), (3, 3, 24), (5, 5, 7), (4, 4, 13)])
+        return ac.gen_align_case(ch, min_annot=shape[0], max_annot=shape[1], max_units=shape[2], max_total=120,
+                                 max_candidates=120000, families=[("dense", 1)])
     shape = ch.choice([(2, 5, 6), (2, 5, 6), (2, 2, 30), (3, 3, 12), (4, 4, 7), (5, 5, 5), (2, 4, 3)])
     case = ac.gen_align_case(ch, min_annot=shape[0], max_annot=shape[1], max_units=shape[2], max_total=90,
                              max_candidates=40000, allow_none_label=ch.coin(0.3))
@@ -84,6 +90,12 @@ def run(case):
     stats["with_unlabelled_units"] = int(unl)
     stats["with_empty_annotator"] = int(0 in sizes)
     stats[f"annotators_{len(sizes)}"] = 1
+    prod = 1
+    for s_ in sizes:
+        prod *= s_ + 1
+    stats["max_candidate_tuples"] = prod
+    if case["continuum"]["family"] == "dense":
+        stats["dense_cases_buffer_growth"] = 1
     nonempty = sum(1 for s in sizes if s)
     fired = 0
     for cfg in ac.CONFIGS:
